@@ -36,6 +36,8 @@ FORMS = {
     "value-attr": ("clocked", "c05v{cellno}.value = {src}\n{o} <<= c05v{cellno}", "c05v{cellno} = Variable[{T}](name='c05v{cellno}')"),
     "init-signal": ("clocked", "c05s{cellno} = Signal[{T}]({src})\n{o} <<= c05s{cellno}", ""),
     "init-variable": ("clocked", "c05w{cellno} = Variable[{T}]({src})\n{o} <<= c05w{cellno}", ""),
+    # delayed_init: the initialisation behaves like a signal assignment (value visible one clock later)
+    "init-signal-delayed": ("clocked2", "c05d{cellno} = Signal[{T}]({src}, delayed_init=True)\n{o} <<= c05d{cellno}", ""),
 }
 
 
@@ -150,6 +152,111 @@ def merge_cells(widths):
     return cs
 
 
+VIEW = {"signed": "S", "unsigned": "U", "bitvector": "BV"}
+
+
+def view_cells(widths):
+    """explicit views: `x.signed / x.unsigned / x.bitvector` as assignment target (the view's type decides which
+    sources are accepted and how they are extended; the root object receives the bits) and as source"""
+    accept, reject = [], []
+    W = max(widths)
+    for rk in ("BV", "U", "S"):
+        root = Ty(rk, W)
+        T = port_type_src(root)
+        for vname, vk in VIEW.items():
+            if vk == rk:
+                continue
+            tv = Ty(vk, W)
+            for ts in types(widths):
+                conv = SP.conv_assign(ts, tv)
+                if conv == "outside":
+                    continue
+                ins, sx, smath = src_expr(ts)
+                forms = (("view-next", "concurrent", f"{{o}}.{vname} <<= {sx}", "", ()),
+                         ("view-next-clocked", "clocked", f"{{o}}.{vname} <<= {sx}", "", ()),
+                         ("view-push", "clocked", f"{{o}}.{vname} ^= {sx}", "", ()),
+                         ("view-value", "clocked", f"c05x{{cellno}}.{vname} @= {sx}\n{{o}} <<= c05x{{cellno}}", f"c05x{{cellno}} = Variable[{T}](name='c05x{{cellno}}')", ("c05x{cellno}",)))
+                for fname, ctx, body, local, nl in forms:
+                    key = f"{fname}|{ts}->{root}.{vname}"
+                    extra = dict(local=local, nonlocals=nl, out_default="Null" if fname == "view-push" else "")
+                    if conv is None:
+                        reject.append((ctx, Cell(key, ins, root, body, lambda P, a: a, **extra)))
+                    else:
+                        spec = lambda P, a, conv=conv, smath=smath, tv=tv, root=root: SP._from_bits(P, SP._bits(P, conv(P, smath(P, a)), tv), root)
+                        accept.append((ctx, Cell(key, ins, root, body, spec, **extra)))
+            # slice of the root viewed: {o}[W-1:1].view  (width W-1)
+            if W >= 3:
+                tvs = Ty(vk, W - 1)
+                for ts in types(widths):
+                    conv = SP.conv_assign(ts, tvs)
+                    if conv == "outside" or ts.kind in ("Bit", "bool"):
+                        continue
+                    ins, sx, smath = src_expr(ts)
+                    key = f"view-slice|{ts}->{root}[{W - 1}:1].{vname}"
+                    body = f"{{o}} <<= {{z}}\n{{o}}[{W - 1}:1].{vname} <<= {sx}"
+                    if conv is None:
+                        reject.append(("clocked", Cell(key, ins + [("z", root)], root, body, lambda P, a, z: z)))
+                    else:
+                        spec = lambda P, a, z, conv=conv, tvs=tvs, root=root: SP._from_bits(P, _set(P, SP._bits(P, z, root), W - 1, 1, SP._bits(P, conv(P, a), tvs), W), root)
+                        accept.append(("clocked", Cell(key, ins + [("z", root)], root, body, spec)))
+    # views as sources: the view's type is the source type
+    for sk in ("BV", "U", "S"):
+        for ws in widths:
+            ts = Ty(sk, ws)
+            for vname, vk in VIEW.items():
+                if vk == sk:
+                    continue
+                tsv = Ty(vk, ws)
+                for tt in types(widths):
+                    if tt.kind == "bool":
+                        continue
+                    conv = SP.conv_assign(tsv, tt)
+                    if conv == "outside":
+                        continue
+                    key = f"view-source|{ts}.{vname}->{tt}"
+                    body = f"{{o}} <<= {{a}}.{vname}"
+                    if conv is None:
+                        reject.append(("concurrent", Cell(key, [("a", ts)], tt, body, lambda P, a: a)))
+                    else:
+                        spec = lambda P, a, conv=conv, ts=ts, tsv=tsv: conv(P, SP._from_bits(P, SP._bits(P, a, ts), tsv))
+                        accept.append(("concurrent", Cell(key, [("a", ts)], tt, body, spec, range_check=tt.kind in ("U", "S"))))
+    return accept, reject
+
+
+def literal_form_cells(widths):
+    """integer literals in every place a literal can stand for a typed value: must be representable in the type that
+    receives them.  Forms where the receiving type is the output's: constructor, initial values, port default.
+    Merges with a typed operand: rejected, or the chosen operand's number arrives (judged like merge_cells)."""
+    accept, reject, merges = [], [], []
+    for w in widths:
+        for tt in (U(w), S(w)):
+            T = port_type_src(tt)
+            lo, hi = tt.lo(), tt.hi()
+            for k in sorted({lo, hi, lo - 1, hi + 1, 1 << w, -(1 << w)}):
+                ok = lo <= k <= hi
+                forms = (
+                    ("ctor", "concurrent", f"{{o}} <<= {T}({k})", ""),
+                    ("init-signal-lit", "clocked", f"c05l{{cellno}} = Signal[{T}]({k})\n{{o}} <<= c05l{{cellno}}", ""),
+                    ("init-variable-lit", "clocked", f"c05m{{cellno}} = Variable[{T}]({k})\n{{o}} <<= c05m{{cellno}}", ""),
+                    ("init-outer-signal-lit", "concurrent", f"{{o}} <<= c05n{{cellno}}", f"c05n{{cellno}} = Signal[{T}]({k}, name='c05n{{cellno}}')"),
+                    ("next-attr-lit", "clocked", f"{{o}}.next = {k}", ""),
+                    ("push-lit", "clocked", f"{{o}} ^= {k}", ""),
+                )
+                for fname, ctx, body, local in forms:
+                    cell = Cell(f"{fname}|{k}->{tt}", [], tt, body, lambda P, k=k: P.const(k), local=local, out_default="Null" if fname == "push-lit" else "")
+                    (accept if ok else reject).append((ctx, cell))
+                # the literal as one operand of a merge with an operand of the same type
+                for form, body, setup in (
+                    ("ifexpr-lit", f"{{o}} <<= {k} if {{c}} else {{b}}", ""),
+                    ("ifexpr-lit-else", f"{{o}} <<= {{b}} if {{c}} else {k}", ""),
+                    ("return-lit", f"{{o}} <<= c05_pick({k}, {{b}}, {{c}})", "def c05_pick(x, y, c):\n    if c:\n        return x\n    return y\n"),
+                ):
+                    pick_lit_when = 0 if form == "ifexpr-lit-else" else 1
+                    spec = lambda P, b, c, k=k, pl=pick_lit_when: P.ite((c != 0) if pl else (c == 0), P.const(k), b)
+                    merges.append(("clocked", Cell(f"{form}|{k}|{tt}", [("b", tt), ("c", BIT)], tt, body, spec, setup=setup, range_check=True)))
+    return accept, reject, merges
+
+
 def run(tier: str) -> int:
     rep = Reporter("C05", tier, "translation_validation")
     wd = Workdir()
@@ -160,10 +267,12 @@ def run(tier: str) -> int:
         acc, rej = pair_cells(widths, forms)
         a2, r2 = literal_cells(widths)
         a3, r3 = part_cells([2, 3])
-        acc, rej = acc + a2 + a3, rej + r2 + r3
-        merges = merge_cells([2, 3])
+        a4, r4 = view_cells([2, 3] if tier == "quick" else [2, 3, 4])
+        a5, r5, m5 = literal_form_cells(widths)
+        acc, rej = acc + a2 + a3 + a4 + a5, rej + r2 + r3 + r4 + r5
+        merges = merge_cells([2, 3]) + m5
         # must-accept cells in batches per context
-        for ctx in ("concurrent", "clocked"):
+        for ctx in ("concurrent", "clocked", "clocked2"):
             group = [c for cx, c in acc if cx == ctx]
             for k in range(0, len(group), 40):
                 for res in run_cells(rep, wd, group[k:k + 40], ctx):
